@@ -64,7 +64,8 @@ MANIFEST = {
                   "ReadFixedLengthString with any count, zero-terminated strings with a count below 2^62, SkipBytes, AccError, positions relative "
                   "to the entry; buffers below 2^61 bytes), or delegating and named: the visual sample entries (C03_vse_pair_agree_canonical), "
                   "trep (C03_counted_pairs_agree_canonical), wvtt (C03_entry_pairs_agree_canonical), evte and stpp (C03_xentry_pairs_agree_canonical: a prefix "
-                  "that is a local reader program, then children while payload bytes remain), or EXPLORED: esds meta sgpd; "
+                  "that is a local reader program, then children while payload bytes remain), meta (C03_meta_pair_agree_canonical: ISO and QuickTime form, "
+                  "LookAhead sees the same bytes on both readers), or EXPLORED: esds sgpd; "
                   "(ii) a CONTAINER TWIN - the same text around DecodeContainerChildren / ...SR (20 types: the container kind of "
                   "C03_decode_agree_canonical; for edts sinf stbl, whose SR decoder returns sr.AccError() instead of nil, C03_twin_accerr_canonical: "
                   "on a canonical box at any position of the buffer the test never fires) or moov/moof (reader path reads the body and runs the "
@@ -76,8 +77,8 @@ MANIFEST = {
                   "C03_std_canon_leaf), emeb vtte PURE TWINS (same text, reader untouched); (iv) SEPARATELY WRITTEN and named in the theorem, with "
                   "BOTH decoders modelled: trun senc stsd mfhd tfdt, dref (C03_counted_pairs_agree_canonical), the audio sample entries mp4a enca "
                   "ac-3 ec-3 (C03_entry_pairs_agree_canonical: the reader path runs the READER-path box decoder on the rest of the body), or "
-                  "vttc, whose SR decoder only initialises Children with an empty slice where the reader path leaves it nil, is a container twin (nil == empty). Explored-only decoder keys: 3 (were 22): esds (descriptor parsing with absolute positions), meta (LookAhead), sgpd (entry decoders "
-                  "behind a function table). "
+                  "vttc, whose SR decoder only initialises Children with an empty slice where the reader path leaves it nil, is a container twin (nil == empty). Explored-only decoder keys: 2 (were 22): esds (descriptor parsing with absolute positions), sgpd (entry decoders behind a "
+                  "function table). "
                   "A reader-path decoder rewritten by hand, an SR decoder that "
                   "starts using GetPos / RemainingBytes / LookAhead ..., a guard present on one path only, or a type registered with another "
                   "SR decoder leaves its class: the theorem fails and the check names the box type, the function and the reason. ENCODERS "
@@ -534,7 +535,7 @@ def run(ctx):
                               "to an stsd / sample entry and 8 mdat boxes: model encoders vs Encode/EncodeSW bytes; P: mfhd, tfdt (v0/v1), tfhd (all 32 "
                               "combinations of the optional-field flags) with the same variants: fields, Size, consumed, AccError of both decoders vs "
                               "the reader programs; C: dref, trep, wvtt, mp4a/enca/ac-3/ec-3 with 0..3 standard-leaf children x the same variants (lying sizes, "
-                              "truncations, 16-byte headers, lying entry counts, boxes shorter than the fixed part) vs dref_r/sr, trep_r/sr, wvtt_r/sr, evte_r/sr, stpp_r/sr, ase_r/sr, and "
+                              "truncations, 16-byte headers, lying entry counts, boxes shorter than the fixed part) vs dref_r/sr, trep_r/sr, wvtt_r/sr, evte_r/sr, stpp_r/sr, meta_r/sr, ase_r/sr, and "
                               "their encoders (M) vs pfx_enc_w/sw; Y: synthesized files [ftyp moov{traks clear / encrypted with tenc IV 0/8/16 / without tenc / without tkhd / "
                               "without entry}] [free] (moof{1..4 trafs} mdat){1,2}, every traf with a track id or no tfhd and no senc / zero-sample senc / "
                               "unparsed senc that parses (8- or 16-byte IVs, sub-samples) / that does not / PIFF senc / saio matching, mismatching, empty / "
